@@ -93,6 +93,13 @@ type GlobalInv struct {
 	Src  string
 }
 
+// FuncTypeSpec: what every value of a named function type promises: calling it leaves the fields of
+// the listed struct types untouched (everything else may change).
+type FuncTypeSpec struct {
+	Pkg, Type string
+	Preserves []string // struct types, or "package <path>": everything owned by that package
+}
+
 // PoolInv: invariant of the values held by a package-level sync.Pool (variable x).
 type PoolInv struct {
 	Pkg, Var string
@@ -113,6 +120,7 @@ type Specs struct {
 	Ghost      map[string]*GhostField // key: pkgpath.Type.#name
 	GlobalInvs []*GlobalInv
 	Pools      []*PoolInv
+	FuncTypes  []*FuncTypeSpec
 	GhostVars  map[string]string // $name -> sort
 	Files      []string
 	Guarded    []string
@@ -373,6 +381,13 @@ func (sp *Specs) LoadSpecFile(path, pkgPath string) error {
 				return fail("%v", err)
 			}
 			sp.Lemmas = append(sp.Lemmas, &Lemma{Pkg: pkgPath, Name: name, Params: lparams, Using: using, Cover: word == "cover", Expr: e, Src: rest, Axiom: word == "axiom", File: path, Line: ln, Props: curProps})
+		case "functype":
+			// functype <Type> preserves <StructType> ...
+			parts := strings.Fields(rest)
+			if len(parts) < 3 || parts[1] != "preserves" {
+				return fail("functype <Type> preserves <StructType>...")
+			}
+			sp.FuncTypes = append(sp.FuncTypes, &FuncTypeSpec{Pkg: pkgPath, Type: parts[0], Preserves: parts[2:]})
 		case "pool":
 			// pool <var>: <invariant over x>
 			i := strings.Index(rest, ":")
